@@ -209,3 +209,75 @@ def run_load_faults(ctx):
         if mine != st or mlog != log or int(mf.get("pos", -1)) != pos:
             ctx.disagree("FLAC.load file operations", case, model=ans[:500], impl="%s pos=%d log=%s" % (st, pos, ",".join(log))[:500])
     return runs
+
+
+def run_save_faults(ctx):
+    """FLAC.save(FaultFile) with its real reads against `FlacL.saveRealM` (Model/Container/FlacSaveM.lean): clean, one IOError at
+    every call index, every capacity 0..growth — outcome class, bytes, position and the complete call log.  On the real side: only
+    MutagenError (ValueError from verify_fileobj, calls 0/1), ENOSPC leaves the file byte-identical, a normal return after a fault
+    leaves the complete file.  Returns the number of real runs."""
+    from mutagen import MutagenError, flac
+    from fobj import FaultFile
+    rng = ctx.rng
+    nfiles = int(os.environ.get("VERIF_FLACSAVE_FILES", "0")) or ctx.budget(6, 60)
+    reqs = []
+    runs = 0
+    done = 0
+    while done < nfiles:
+        data, kind = gen_flac(rng)
+        if kind not in ("plain", "id3") or len(data) > 900:
+            continue
+        k0, obj = timed(lambda: flac.FLAC(io.BytesIO(data)), 20)
+        if k0 != "ok":
+            continue
+        done += 1
+        if obj.tags is None:
+            obj.add_tags()
+        obj.tags["TITLE"] = ["x" * rng.choice([0, 3, 40, 200])]
+        pad = rng.choice(["0", "0", "7", "keep", "default"])
+        blocks_arg = ",".join("%d:%s" % (b.code, hx(bytes(b.write()))) for b in obj.metadata_blocks if b.code != 1) or "-"
+
+        def go(f):
+            obj.save(f, padding=None if pad == "default" else ((lambda i: max(i.padding, 0)) if pad == "keep" else (lambda i: int(pad))))
+        ref = FaultFile(data)
+        kr, rr = timed(lambda: go(ref), 20)
+        runs += 1
+        if kr != "ok":
+            ctx.violation("flac:save:raises", "%r on a well-formed file" % (rr,), dict(data=hx(data))); continue
+        refb, n = ref.getvalue(), ref.calls
+        growth = len(refb) - len(data)
+        envs = [({}, "")]
+        envs += [(dict(fail_at=i), " fail=%d:io" % i) for i in (range(n) if n <= 90 else sorted(set(list(range(45)) + list(range(n - 25, n)))))]
+        if growth > 0:
+            for r in (range(growth + 1) if growth <= 40 else sorted(set([0, 1, growth - 1, growth] + [rng.randrange(growth) for _ in range(12)]))):
+                envs.append((dict(cap=len(data) + r, leak=rng.choice([0, 3])), None))
+        for kw, extra in envs:
+            if extra is None:
+                extra = " cap=%d leak=%d" % (kw["cap"], kw["leak"])
+            f = FaultFile(data, **kw)
+            k, res = timed(lambda: go(f), 20)
+            runs += 1
+            case = dict(kind=kind, data=hx(data), pad=pad, env=extra.strip() or "clean")
+            ctx.case(key=("flacsavem", done, extra), nontrivial=bool(extra), modelled=True)
+            st = "ok" if k == "ok" else ("hang" if k == "hang" else classify(res))
+            ctx.hist["flacsavem:%s" % st] += 1
+            if k == "hang":
+                ctx.violation("flac:save:hang", "did not finish", case); continue
+            if k == "exc" and not isinstance(res, MutagenError) and not (isinstance(res, ValueError) and kw.get("fail_at") in (0, 1)):
+                ctx.violation("flac:save:fault-raises-%s" % type(res).__name__, "%s surfaced as %r" % (extra, res), case)
+            if "cap" in kw and k != "ok" and f.getvalue() != data:
+                ctx.violation("flac:save:file-modified-on-enospc", "failed save changed the file", case)
+            if k == "ok" and f.getvalue() != refb:
+                ctx.violation("flac:save:incomplete-after-normal-return", "normal return, file differs from the clean save", case)
+            reqs.append(("flacsave data=%s blocks=%s pad=%s%s" % (hx(data), blocks_arg, pad, extra),
+                         "%s data=%s pos=%d log=%s" % (st, hx(f.getvalue()), f.pos(), ",".join(f.log) or "-"), case))
+    if not ctx.model_ok():
+        ctx.notes.append("flacload_tie.run_save_faults: model driver unavailable, tie skipped"); return runs
+    answers = ctx.driver.ask([r[0] for r in reqs]) if reqs else []
+    if any(a == "bad-op" for a in answers):
+        ctx.notes.append("flacload_tie.run_save_faults: the driver does not know `flacsave`; tie skipped"); return runs
+    for (line, impl, case), ans in zip(reqs, answers):
+        ctx.traces_validated += 1
+        if ans != impl:
+            ctx.disagree("FLAC.save file operations (real reads)", case, model=ans[:600], impl=impl[:600])
+    return runs
